@@ -301,12 +301,13 @@ Definition relabel (r : rep) (rn : ren) : rep * rl * res (list (name * name)) :=
   | (st, Ok _) => relabel_do r rn st ss []
   end.
 
-(* _createDisjointRenaming(c): names of c (by order) that are also ours get '{s}->{k}d{u}' *)
-Fixpoint disj_search (fuel : nat) (r : rep) (s : name) (k u : nat) : option name :=
+(* _createDisjointRenaming(c): names of c (by order) that are also ours get '{s}->{k}d{u}', the first such name that
+   neither we nor c use and that no other simplex was given *)
+Fixpoint disj_search (fuel : nat) (r c : rep) (taken : list name) (s : name) (k u : nat) : option name :=
   match fuel with
   | 0 => None
   | S f => let q := disj_name s k u in
-           if containsSimplex r q then disj_search f r s k (S u) else Some q
+           if containsSimplex r q || containsSimplex c q || memn q taken then disj_search f r c taken s k (S u) else Some q
   end.
 Definition createDisjointRenaming (r : rep) (c : rep) : res (list (name * name)) :=
   fold_left
@@ -317,7 +318,7 @@ Definition createDisjointRenaming (r : rep) (c : rep) : res (list (name * name))
             | Raise e => Raise e
             | Ok m =>
                 if containsSimplex r s then
-                  match disj_search (S (length (r_simp r))) r s k 1 with
+                  match disj_search (S (length (r_simp r) + length (r_simp c) + length m)) r c (map snd m) s k 1 with
                   | Some q => Ok (assoc_set s q m)
                   | None => Raise OutOfFuel
                   end
